@@ -145,6 +145,8 @@ def run(R):
             any(callee_last(k) == 'process' and k.args and is_name(k.args[0], loops[0].target.id) for k in calls_in(loops[0]))
         c.check(ok, f, loops[0] if loops else None, 'the text is fed to the parser one character at a time, in order', kind='ast', tag='char-by-char')
         dec = repo.func('screen:screen._decode')
+        if decoder_state_guarded(dec) and len([k for k in calls_in(dec.node) if callee_last(k) == 'decode']) > 1:
+            raise AnalysisError('screen._decode: a second decode path guarded by a test of the decoder\'s own state (getstate()): whether it equals incremental decoding cannot be decided')
         ks = [k for k in calls_in(dec.node) if callee_last(k) == 'decode']
         fin = call_arg(ks[0], 'final', 1) if len(ks) == 1 else None
         ok = len(ks) == 1 and norm(ks[0].func.value) == 'self.decoder' and (fin is None or is_const(fin, False))
